@@ -24,6 +24,10 @@ func main() {
 	dir := fs.String("dir", ".", "output directory")
 	replay := fs.String("replay", "", "op lines to re-execute instead of generating")
 	_ = fs.Parse(os.Args[2:])
+	// the library prints diagnostics with fmt.Println in a few places; keep stdout clean
+	if devnull, err := os.OpenFile(os.DevNull, os.O_WRONLY, 0); err == nil {
+		os.Stdout = devnull
+	}
 	p, ok := props.All[id]
 	if !ok {
 		fmt.Fprintln(os.Stderr, "unknown property", id)
